@@ -66,9 +66,10 @@ CHECKS = {
         "(fixed/variable/randVar/split/random _guarded and _budget_respected); dbSplit_bound (<= b*n+1), periodic_bound and "
         "randomSampling_strict_bound (<= b*n); chunked_grants_eq: the bounds hold however the stream is chunked. Tie: bit-exact Float "
         "correspondence of u_t_, theta_, counters and decisions after every chunk with numpy's captured draws, boundary streams (u/w == b), "
-        "adversarial utilities; the exact rational bound is evaluated at every prefix of every real run.",
+        "adversarial utilities; the exact rational bound is evaluated at every prefix of every real run."
+        " Second tie (translation): harness/translate/pystream.py re-translates query_by_utility / query / update of every budget manager and both baseline strategies from the current Python source into Lean (Gen/StreamBM.lean) on every run; Lemmas/StreamGen.lean proves each translated method equal to the hand-written model for all inputs (19 bridging theorems), Props/StreamGen.lean transfers the property theorems to the translated managers (gen_* theorems via the simulation lemma Sim.run_chunked); the translated model is also executed bit-exactly against the real classes (skagendriver).",
         design="§4 C04",
-        technique="Lean 4 proof (invariant by induction over the stream, refinement) + bit-exact model/implementation correspondence",
+        technique="Lean 4 proof (invariant by induction over the stream, refinement; theorems transferred to a model translated from the Python source on every run) + bit-exact model/implementation correspondence",
     ),
     "C03": dict(
         text="Lean 4 theorems: for every budget manager, both baselines and the utility / density / cognitive strategy models, query returns the "
@@ -76,18 +77,20 @@ CHECKS = {
         "the statement is not vacuous), repeated queries agree, and inserting extra queries anywhere in any history leaves all later results "
         "and the final state unchanged (extra_queries_irrelevant, induction over histories). Tie: state-level correspondence (deep attribute "
         "snapshots incl. RandomState.get_state()) before/after every call on all exported stream strategies x managers; twin histories with "
-        "extra queries.",
+        "extra queries (also with other training data / weights / fit_clf / utility_weight than the regular calls)."
+        " Second tie (translation): harness/translate/pystream.py re-translates query_by_utility / query / update of every budget manager and both baseline strategies from the current Python source into Lean (Gen/StreamBM.lean) on every run; Lemmas/StreamGen.lean proves each translated method equal to the hand-written model for all inputs (19 bridging theorems), Props/StreamGen.lean transfers the property theorems to the translated managers (gen_* theorems via the simulation lemma Sim.run_chunked); the translated model is also executed bit-exactly against the real classes (skagendriver).",
         design="§4 C03",
-        technique="Lean 4 proof (purity + induction over histories) + state-snapshot correspondence",
+        technique="Lean 4 proof (purity + induction over histories; theorems transferred to a model translated from the Python source on every run) + state-snapshot and bit-exact correspondence",
     ),
     "C10": dict(
         text="Lean 4 theorems: queried indices strictly increasing and in range for all managers/strategies; update commits exactly the "
         "simulated state (X_update_commits); chunk_invariance_{fixed,variable,split,random,biqf,streamRandom,periodic} for every stream and "
         "every two chunkings; cognitive_update_accepts / density_update_accepts at full strength on the repaired code; counterexamples for the "
         "recorded chunk-dependence finding of the density strategies with density_chunk_invariance_partial. Tie: bit-exact correspondence under "
-        "random rechunkings, update fed with query results and with foreign index lists, spies on what the manager receives.",
+        "random rechunkings, update fed with query results and with foreign index lists, spies on what the manager receives."
+        " Second tie (translation): harness/translate/pystream.py re-translates query_by_utility / query / update of every budget manager and both baseline strategies from the current Python source into Lean (Gen/StreamBM.lean) on every run; Lemmas/StreamGen.lean proves each translated method equal to the hand-written model for all inputs (19 bridging theorems), Props/StreamGen.lean transfers the property theorems to the translated managers (gen_* theorems via the simulation lemma Sim.run_chunked); the translated model is also executed bit-exactly against the real classes (skagendriver).",
         design="§4 C10",
-        technique="Lean 4 proof (refinement of chunked to per-instance process) + bit-exact correspondence",
+        technique="Lean 4 proof (refinement of chunked to per-instance process; theorems transferred to a model translated from the Python source on every run) + bit-exact correspondence",
     ),
     "C07": dict(
         text="Lean 4 theorems: transformCandAnnot_spec for all nine candidates x annotators cases, batch clipping to available pairs, "
